@@ -338,10 +338,10 @@ class BaseSection(base.Sectionable):
             self._parent.remove(self)
             self._parent = None
         elif self._validate_parent(new_parent):
-            if self._parent is not None:
-                self._parent.remove(self)
-            self._parent = new_parent
-            self._parent.append(self)
+            # append checks that the move is possible before anything is changed
+            # and removes the Section from its previous parent.
+            if new_parent is not self._parent:
+                new_parent.append(self)
         else:
             raise ValueError(
                 "odml.Section.parent: passed value is not of consistent type!"
@@ -517,9 +517,17 @@ class BaseSection(base.Sectionable):
         :param obj: Section or Property object.
         """
         if isinstance(obj, BaseSection):
+            if obj.name in self._sections:
+                raise KeyError("Object with the same name already exists! " + str(obj))
+
+            self._prepare_child(obj)
             self._sections.append(obj)
             obj._parent = self
         elif isinstance(obj, BaseProperty):
+            if obj.name in self._props:
+                raise KeyError("Object with the same name already exists! " + str(obj))
+
+            self._prepare_child(obj)
             self._props.append(obj)
             obj._parent = self
         elif isinstance(obj, Iterable) and not isinstance(obj, str):
@@ -540,18 +548,29 @@ class BaseSection(base.Sectionable):
             raise TypeError("'%s' object is not iterable" % type(obj_list).__name__)
 
         # Make sure only Sections and Properties with unique names will be added.
+        new_sec_names = []
+        new_prop_names = []
         for obj in obj_list:
             if not isinstance(obj, BaseSection) and not isinstance(obj, BaseProperty):
                 msg = "odml.Section.extend: Can only extend sections and properties."
                 raise ValueError(msg)
 
-            if isinstance(obj, BaseSection) and obj.name in self.sections:
+            if isinstance(obj, BaseSection) and \
+                    (obj.name in self.sections or obj.name in new_sec_names):
                 msg = "odml.Section.extend: Section with name '%s' already exists." % obj.name
                 raise KeyError(msg)
 
-            if isinstance(obj, BaseProperty) and obj.name in self.properties:
+            if isinstance(obj, BaseProperty) and \
+                    (obj.name in self.properties or obj.name in new_prop_names):
                 msg = "odml.Section.extend: Property with name '%s' already exists." % obj.name
                 raise KeyError(msg)
+
+            if isinstance(obj, BaseSection):
+                new_sec_names.append(obj.name)
+            else:
+                new_prop_names.append(obj.name)
+
+            self._ensure_no_cycle(obj)
 
         for obj in obj_list:
             self.append(obj)
@@ -570,6 +589,7 @@ class BaseSection(base.Sectionable):
                 raise ValueError("odml.Section.insert: "
                                  "Section with name '%s' already exists." % obj.name)
 
+            self._prepare_child(obj)
             self._sections.insert(position, obj)
             obj._parent = self
         elif isinstance(obj, BaseProperty):
@@ -577,6 +597,7 @@ class BaseSection(base.Sectionable):
                 raise ValueError("odml.Section.insert: "
                                  "Property with name '%s' already exists." % obj.name)
 
+            self._prepare_child(obj)
             self._props.insert(position, obj)
             obj._parent = self
         else:
